@@ -26,19 +26,20 @@ from ..core import CaseResult
 
 ID = "C19"
 LEVEL = "exploration"
-RULE = ("(a) COMPLETE enumeration of tag multisets of size 0..4 (quick: size 4 with rotating value assignments / provider "
-        "modes, thorough: all) over {use,not,active,not_active,only} x categories {a, a.b, c(unknown)} x values {x, xy, y}, "
-        "interleaved with ordinary tags and schema look-alikes, for EVERY assignment of current values to the known "
-        "categories and every provider mode (dict, ValueObject, lazy ValueObject, ActiveTagValueProvider with plain / lazy "
-        "values, get()-only provider, CompositeActiveTagValueProvider over plain / lazy sub-providers queried twice "
-        "(+ its get() protocol), CompositeTagMatcher over split providers); (b) the same for typed categories (NumberValueObject with eq/ne/ge/le/gt/lt x current 1..3, "
-        "BoolValueObject, malformed tag values), sizes 0..3; (c) Hypothesis: random categories / value objects (custom "
-        "compare, contains, lazy) / custom prefixes, separators, ignore_unknown_categories given by constructor, subclass "
-        "attribute or instance attribute; (d) Hypothesis: CompositeTagMatcher over active / predicate / nested members; "
-        "(e) Hypothesis: value separators containing regex-special characters. Oracle: own parser of the documented schema "
-        "and own evaluation: excluded <=> some known category has positives none of which matches, or a matching negative. "
-        "One evaluation = one matcher built and asked should_exclude_with + should_run_with for one "
-        "(tags, current values, provider mode, configuration). Non-trivial = at least 2 active tags of known categories.")
+RULE = ("(a) COMPLETE enumeration of tag multisets of size 0..4 over {use,not,active,not_active,only} x categories "
+        "{a, a.b, c(unknown)} x values {x, xy, y}, in varying order and interleaved with ordinary tags / schema look-alikes; "
+        "thorough: each with EVERY assignment of current values to the known categories and every provider mode (dict, "
+        "ValueObject, lazy ValueObject, ActiveTagValueProvider with plain / lazy values, get()-only provider, "
+        "CompositeActiveTagValueProvider over plain / lazy sub-providers queried twice + its get() protocol, "
+        "CompositeTagMatcher over split providers); quick: sizes <= 3 with every assignment and 3 rotating modes, size 4 with "
+        "2 rotating assignments and 1 rotating mode. (b) the same for typed categories (NumberValueObject eq/ne/ge/le/gt/lt x "
+        "current 1..3, BoolValueObject, malformed tag values), sizes 0..3. (c) Hypothesis-seeded: random categories, value "
+        "objects (default / custom compare, contains, lazy), custom prefixes, separators, ignore_unknown_categories given by "
+        "constructor, subclass attribute or instance attribute. (d) CompositeTagMatcher over active / predicate / nested "
+        "members. (e) value separators containing regex-special characters. Oracle: own parser of the documented schema and "
+        "own evaluation: excluded <=> some known category has positives none of which matches, or a matching negative. "
+        "One evaluation = one matcher built and asked should_exclude_with + should_run_with for one (tags, current values, "
+        "provider mode, configuration). Non-trivial = at least 2 active tags of known categories.")
 ASSUMPTIONS = [
     "a tag is negated iff its prefix starts with 'not' (docs v1.2.5 'Active Tag Logic'); this is applied to custom prefixes too",
     "category syntax is word characters with dot-separated parts (all documented examples); other spellings are not generated",
@@ -236,6 +237,12 @@ def build_provider(mode, values):
     raise ValueError(mode)
 
 
+def _shown(obj):
+    if obj is None or isinstance(obj, (str, int, bool)):
+        return repr(obj)
+    return "a %s.%s object" % (type(obj).__module__, type(obj).__name__)
+
+
 def check_provider_protocol(res, provider, values, where):
     """Documented value-provider protocol: get(category, default) returns the category value, or the default
     for an unknown category -- also when asked repeatedly (composite provider: cached)."""
@@ -245,12 +252,13 @@ def check_provider_protocol(res, provider, values, where):
             desc = values[category]
             bad = (got != desc) if isinstance(desc, str) else (got is None or isinstance(got, str))
             if bad:
-                shown = "a %s" % type(got).__name__ if callable(got) else repr(got)
-                res.fail("C19.provider-get", "get(%r, None) #%d returned %s; %s" % (category, attempt, shown, where()))
+                res.fail("C19.provider-get", "get(%r, None) #%d returned %s; %s"
+                         % (category, attempt, _shown(got), where()))
                 return
         got = provider.get("zz.unknown", "dflt")
         if got != "dflt":
-            res.fail("C19.provider-get", "get('zz.unknown', 'dflt') #%d returned %r; %s" % (attempt, got, where()))
+            res.fail("C19.provider-get", "get('zz.unknown', 'dflt') #%d returned %s instead of the default; %s"
+                     % (attempt, _shown(got), where()))
             return
 
 
@@ -342,12 +350,13 @@ def _describe(tags, values, mode, cfg):
     return text
 
 
-def verdict_clause(behave_excl, expected, active, values, ignore_unknown, sep):
+def verdict_clause(behave_excl, expected, active, values, ignore_unknown, sep, mode):
     if REGEX_META & set(sep):
         return "C19.separator-not-literal.verdict"
     has_unknown = any(c not in values for _p, c, _v in active)
     if ignore_unknown and has_unknown and bool(behave_excl) == ref_excluded(active, values, False):
-        return "C19.unknown-category-not-ignored"
+        family = "provider-class" if mode.startswith(("atvp", "composite-provider")) else "mapping"
+        return "C19.unknown-category-not-ignored." + family
     return "C19.false-exclude" if behave_excl else "C19.false-run"
 
 
@@ -401,7 +410,7 @@ def evaluate(res, tags, values, mode, cfg, parsed=None):
             elif mode == "composite-matcher" and not meta:
                 clause = "C19.composite-matcher"
             else:
-                clause = verdict_clause(excl, expected, active, values, ignore_unknown, sep)
+                clause = verdict_clause(excl, expected, active, values, ignore_unknown, sep, mode)
             res.fail(clause, "should_exclude_with=%r (query #%d), documented logic gives %r; %s"
                      % (excl, q + 1, expected, _describe(tags, values, mode, cfg)), mode=mode, expected=expected)
             break
